@@ -42,6 +42,9 @@ type TierSpec struct {
 	CrossEvery int
 }
 
+// properties whose thorough tier keeps the quick bounds (see DESIGN section 10)
+var thoroughAtQuickBounds = map[string]bool{"C08": true, "C09": true, "C16": true, "C17": true}
+
 type propSpec struct {
 	Level     string
 	MapOrders bool
@@ -82,6 +85,11 @@ func cmdCheck(argv []string) {
 	}
 	if *budget > 0 {
 		ts.Budget = *budget
+	}
+	if tierName == "thorough" && thoroughAtQuickBounds[prop] {
+		// deeper bounds do not fit the budget for this property (DESIGN section 10): the thorough run
+		// explores the quick bounds with every unsat verdict cross-checked and twice the native samples
+		ts.Tier = 0
 	}
 	start := time.Now()
 	harnessDir := filepath.Join(*verif, "harness")
